@@ -148,6 +148,7 @@ theorem tested_or_skipped {A : Arr} {n : Nat} (h : Can A n) (i : Nat) (hi : i < 
 
 theorem necessary_clause_data {A : Arr} {n : Nat} (h : Can A n) (h3 : 3 ≤ A.size) :
     ∃ c any z o, necessaryClause A = Sel.some c ∧ any.size = n ∧ AnyChar A n any ∧ ZChar A any z ∧ OChar A any o ∧
+      (∀ i, i < n → mk any i ∨ mk z i ∨ mk o i) ∧
       ∀ k, getC c k = if k < n then litOf any z o k else none := by
   have hr2 : 2 ≤ root A := by unfold root; omega
   obtain ⟨rt, hrt⟩ : ∃ rt, A[root A]? = some rt := ⟨A[root A]'h.root_lt, by simp [h.root_lt]⟩
@@ -198,7 +199,7 @@ theorem necessary_clause_data {A : Arr} {n : Nat} (h : Can A n) (h3 : 3 ≤ A.si
           exact Or.inr ((hmo i).mpr ⟨q, nd, hq2, hnd, hvar, hmi, hh0, hl0⟩)
       · exact absurd (Or.inr (Or.inr hsk)) hnot
   obtain ⟨c, hc, hget⟩ := assemble_spec any2 zo.1 zo.2 n hs2 hsz hso hcov
-  refine ⟨c, any2, zo.1, zo.2, ?_, hs2, hany, hmz, hmo, hget⟩
+  refine ⟨c, any2, zo.1, zo.2, ?_, hs2, hany, hmz, hmo, hcov, hget⟩
   have hnt : isTrue A = false := by simp [isTrue]; omega
   simp only [necessaryClause, h.isFalse, hnt, h.numVars, hrt, Option.bind_some, ha0, ha1, ha2, hzo, hc, ofOpt]
   rfl
@@ -267,7 +268,7 @@ theorem forced_value {A : Arr} {n : Nat} (h : Can A n) (k : Nat) (b : Bool)
 theorem necessary_clause_sound_nonconst {A : Arr} {n : Nat} (h : Can A n) (h3 : 3 ≤ A.size) :
     ∃ c, necessaryClause A = Sel.some c ∧
       ∀ k b, getC c k = some b → ∀ w : Nat → Bool, den A w = true → w k = b := by
-  obtain ⟨c, any, z, o, hc, hsa, hany, hz, ho, hget⟩ := necessary_clause_data h h3
+  obtain ⟨c, any, z, o, hc, hsa, hany, hz, ho, _, hget⟩ := necessary_clause_data h h3
   refine ⟨c, hc, ?_⟩
   intro k b hkb w hw
   rw [hget k] at hkb
